@@ -1089,8 +1089,14 @@ class Server:
     def __init__(self, device: Device) -> None:
         self.device = device
         self.service_records = {}  # Service records maps, by record handle
-        self.channel = None
+        self.channel = None  # Channel of the client being served
         self.current_response = None  # Current response data, used for continuations
+        # Each connected client has its own continuation state. `channel` and
+        # `current_response` are those of the client whose request is being handled,
+        # the partial responses of the other clients are kept here, by channel.
+        self.pending_responses: dict[
+            l2cap.ClassicChannel, None | bytes | tuple[int, list[int]]
+        ] = {}
 
     def register(self, l2cap_channel_manager: l2cap.ChannelManager) -> None:
         l2cap_channel_manager.create_classic_server(
@@ -1118,8 +1124,28 @@ class Server:
         return matching_services
 
     def on_connection(self, channel):
+        self.select_channel(channel)
+        channel.sink = lambda pdu: self.on_channel_pdu(channel, pdu)
+        channel.on(channel.EVENT_CLOSE, lambda: self.on_channel_close(channel))
+
+    def select_channel(self, channel):
+        # Switch to the continuation state of the client connected on this channel
+        if channel is self.channel:
+            return
+        if self.channel is not None:
+            self.pending_responses[self.channel] = self.current_response
         self.channel = channel
-        self.channel.sink = self.on_pdu
+        self.current_response = self.pending_responses.pop(channel, None)
+
+    def on_channel_pdu(self, channel, pdu):
+        self.select_channel(channel)
+        self.on_pdu(pdu)
+
+    def on_channel_close(self, channel):
+        self.pending_responses.pop(channel, None)
+        if channel is self.channel:
+            self.channel = None
+            self.current_response = None
 
     def on_pdu(self, pdu):
         try:
